@@ -208,8 +208,19 @@ func (op *Operation) Cancelled() bool {
 // the current status of this operation. It's a translation
 // from the Type and the Phase.
 func (op *Operation) ToTrackerStatus() api.TrackerStatus {
-	typ := op.Type()
-	ph := op.Phase()
+	return trackerStatus(op.Type(), op.Phase())
+}
+
+// StatusSnapshot returns the tracker status, the timestamp and the error
+// message of the operation as they were at one single moment.
+func (op *Operation) StatusSnapshot() (api.TrackerStatus, time.Time, string) {
+	op.mu.RLock()
+	ph, ts, err := op.phase, op.ts, op.error
+	op.mu.RUnlock()
+	return trackerStatus(op.Type(), ph), ts, err
+}
+
+func trackerStatus(typ OperationType, ph Phase) api.TrackerStatus {
 	switch typ {
 	case OperationPin:
 		switch ph {
